@@ -131,10 +131,10 @@ theorem sL9_simplify (E : Env) (self : Ops) (s : St) :
     simp only [Bool.false_eq_true, ↓reduceIte, M.bind, M.modifyFe_apply, M.getFe_apply]
     by_cases hemp : s.fe.constraints.isEmpty = true
     · have hnil : s.fe.constraints = [] := by simpa using hemp
-      simp only [hemp, ↓reduceIte, pure, M.pure, M.bind, M.modifyFe_apply, M.getFe_apply, hnil, List.isEmpty_nil,
+      simp only [↓reduceIte, pure, M.pure, M.bind, M.modifyFe_apply, hnil, List.isEmpty_nil,
         Bool.not_true, Bool.false_and, Bool.false_eq_true, scSimpFe]
     · simp only [hemp, Bool.false_eq_true, ↓reduceIte, M.bind, M.get_apply, M.modify_apply, pure, M.pure,
-        M.modifyFe_apply, M.getFe_apply]
+        ]
       by_cases hF : (!(E.simp s.fe.constraints s.tick).isEmpty && (E.simp s.fe.constraints s.tick).any (·.isFalse)) = true
       · simp only [hF, ↓reduceIte, M.bind, M.modifyFe_apply, M.pure_apply', scSimpFe]
       · simp only [hF, Bool.false_eq_true, ↓reduceIte, M.bind, M.modifyFe_apply, M.pure_apply', scSimpFe]
